@@ -209,11 +209,12 @@ def via_outer_locals(i):
 
     def nested(y):               # resolvable only through the locals of outer frames
         return y
-    return relay(nested, i) + cb()
+    return relay(Lazy(), hooked, nested, i) + cb()
 
 
-def relay(f, v):
-    lazy_first = Lazy()          # seen before `f` when the locals of this frame are scanned
+def relay(lazy_first, hooked_first, f, v):
+    # `lazy_first` and `hooked_first` come before `f` in this frame's locals, which is the order in which a scan of the
+    # locals of outer frames meets them
     return f(v)
 
 
